@@ -27,6 +27,15 @@ func (e *Engine) execBlock(st *State, b *ssa.BasicBlock, idx int) []outcome {
 				return []outcome{{st: st, left: true}}
 			}
 		}
+		if idx == 0 && e.cur != nil && e.cur.region == nil && e.cur.wholeEntries != nil && st.fr.parent == nil && e.pure == 0 {
+			if ri, ok := e.cur.wholeEntries[b]; ok {
+				// the assumptions of a parentless region are obligations of the whole-function pass
+				penv := e.funcEnv(st)
+				for _, a := range ri.r.Assumes {
+					e.addOblig(st, "region-pre", ri.r.Name+" "+clauseLabel(a), propsOr(a.Props, "SAFETY"), e.evalBool(penv, a.Expr), st.fr.fn.Pos())
+				}
+			}
+		}
 		if idx == 0 {
 			// loop header handling
 			if li := e.cur.loopsOf(st.fr.fn)[b]; li != nil {
